@@ -5,7 +5,7 @@
        the input (or the one consumed last),
      - token limit: the run with floor fl is the unlimited run cut at the first token whose
        suffix has length <= fl. *)
-From GV Require Import Base.Prelude Lang.Lexer Lang.Ast Lang.Parser.
+From GV Require Import Base.Prelude Lang.Lexer Lang.LexerProps Lang.Ast Lang.Parser.
 
 Local Open Scope nat_scope.
 
@@ -822,4 +822,244 @@ Proof.
   - apply gd_value_entry.
   - apply gd_type_entry.
   - apply gd_coordinate_entry.
+Qed.
+
+(* ================= consequences for the entry points ================= *)
+
+(* a successful entry point stops on the EOF token *)
+Lemma adv_eof_state fl ts u r : kind_at ts = K_EOF -> adv fl ts = ROk u r -> r = ts.
+Proof.
+  unfold adv. destruct ts as [|t ts']; [intros _ H; inversion H; reflexivity|].
+  unfold kind_at. cbn [tok_at]. intros ->. cbn. intros H; inversion H; reflexivity.
+Qed.
+
+Lemma expect_eof_state {A} fl (v : A) ts a r :
+  (expect_token fl K_EOF ;;; ret v) ts = ROk a r -> kind_at r = K_EOF.
+Proof.
+  unfold expect_token, bind, cur, ret.
+  destruct (fst (tok_at ts) =? K_EOF)%N eqn:E; [|discriminate].
+  apply N.eqb_eq in E.
+  destruct (adv fl ts) as [u r1| |] eqn:Ea; try discriminate.
+  apply adv_eof_state in Ea; [|exact E]. subst r1. intros H; inversion H; subst. exact E.
+Qed.
+
+Lemma eot_eof_state fl ts r : expect_optional_token fl K_EOF ts = ROk true r -> kind_at r = K_EOF.
+Proof.
+  unfold expect_optional_token, bind, cur, ret.
+  destruct (fst (tok_at ts) =? K_EOF)%N eqn:E; [|discriminate].
+  apply N.eqb_eq in E.
+  destruct (adv fl ts) as [u r1| |] eqn:Ea; try discriminate.
+  apply adv_eof_state in Ea; [|exact E]. subst r1. intros H; inversion H; subst. exact E.
+Qed.
+
+Lemma until_close_eof_state fl (p : P node) : forall f ts l r,
+  until_close fl f K_EOF p ts = ROk l r -> kind_at r = K_EOF.
+Proof.
+  induction f as [|f IH]; intros ts l r; [discriminate|].
+  cbn [until_close]. unfold bind at 1.
+  destruct (expect_optional_token fl K_EOF ts) as [b r1| |] eqn:E; try discriminate.
+  destruct b.
+  - apply eot_eof_state in E. unfold ret. intros H; inversion H; subst. exact E.
+  - unfold bind at 1. destruct (p r1) as [x r2| |]; try discriminate.
+    unfold bind at 1. destruct (until_close fl f K_EOF p r2) as [xs r3| |] eqn:E3; try discriminate.
+    unfold ret. intros H; inversion H; subst. eapply IH; eauto.
+Qed.
+
+Lemma core_eof_state e fl xfa xdd ts d r : core e fl xfa xdd ts = ROk d r -> kind_at r = K_EOF.
+Proof.
+  assert (V : forall (M : P node) ts d r,
+             (enter fl ;;; v <- M ;; expect_token fl K_EOF ;;; ret v) ts = ROk d r -> kind_at r = K_EOF).
+  { intros M ts0 d0 r0. unfold bind at 1. destruct (enter fl ts0) as [u r1| |]; try discriminate.
+    unfold bind at 1. destruct (M r1) as [v r2| |]; try discriminate.
+    apply expect_eof_state. }
+  destruct e; cbn [core].
+  - unfold document. unfold bind at 1.
+    destruct (many fl K_SOF (definition fl xfa xdd) K_EOF ts) as [l r1| |] eqn:E; try discriminate.
+    unfold ret. intros H; inversion H; subst. clear H. revert E.
+    unfold many, loop_close, with_fuel.
+    unfold bind at 1. destruct (expect_token fl K_SOF ts) as [u r2| |]; try discriminate.
+    unfold bind at 1. destruct (definition fl xfa xdd r2) as [x r3| |]; try discriminate.
+    unfold bind at 1.
+    destruct (until_close fl (S (length r3)) K_EOF (definition fl xfa xdd) r3) as [xs r4| |] eqn:E4; try discriminate.
+    unfold ret. intros H; inversion H; subst. eapply until_close_eof_state; eauto.
+  - apply V.
+  - apply V.
+  - apply V.
+  - apply V.
+Qed.
+
+Definition with_max (o : options) (m : option nat) : options :=
+  mkOpts m (exp_fragment_arguments o) (exp_directives_on_directive_definitions o).
+
+(* (a) fuel: S (number of tokens) is always enough, for every token list *)
+Theorem parse_entry_total e o ts :
+  (exists d c, parse_entry e o ts = Ok (d, c)) \/ (exists p, parse_entry e o ts = SyntaxErr p).
+Proof.
+  unfold parse_entry.
+  destruct (gd_core e (exp_fragment_arguments o) (exp_directives_on_directive_definitions o)
+                    (length (sof_tok :: map sig ts))) as [G _].
+  pose proof (g_fuel _ _ G (floor_of o (length (map sig ts))) (sof_tok :: map sig ts) (le_n _)) as F.
+  destruct (core e _ _ _ _) as [d r|x|]; [left; eauto|right; eauto|congruence].
+Qed.
+
+(* (c) token limit *)
+Lemma floor_none o len : floor_of (with_max o None) len = 0.
+Proof. reflexivity. Qed.
+
+Lemma parse_entry_sim e o n ts :
+  let s := map sig ts in
+  simc (length s - n)
+       (core e 0 (exp_fragment_arguments o) (exp_directives_on_directive_definitions o) (sof_tok :: s))
+       (core e (length s - n) (exp_fragment_arguments o) (exp_directives_on_directive_definitions o) (sof_tok :: s)).
+Proof.
+  intros s.
+  destruct (gd_core e (exp_fragment_arguments o) (exp_directives_on_directive_definitions o)
+                    (length (sof_tok :: s))) as [G _].
+  apply (g_sim _ _ G); [apply le_n|]. left. cbn. lia.
+Qed.
+
+Theorem parse_entry_limit_iff e o n ts d c :
+  parse_entry e (with_max o (Some n)) ts = Ok (d, c) <->
+  parse_entry e (with_max o None) ts = Ok (d, c) /\ c <= n.
+Proof.
+  unfold parse_entry. cbn [with_max max_tokens floor_of exp_fragment_arguments
+                             exp_directives_on_directive_definitions].
+  pose proof (parse_entry_sim e o n ts) as S. cbv zeta in S.
+  set (s := map sig ts) in *. set (xfa := exp_fragment_arguments o) in *.
+  set (xdd := exp_directives_on_directive_definitions o) in *.
+  destruct (gd_core e xfa xdd (length (sof_tok :: s))) as [G _].
+  unfold simc in S.
+  destruct (core e 0 xfa xdd (sof_tok :: s)) as [d0 r0|e0|] eqn:E0.
+  - pose proof (g_suf _ _ G _ _ _ _ (le_n _) E0) as Sf. apply suffix_length in Sf. cbn in Sf.
+    pose proof (core_eof_state _ _ _ _ _ _ _ E0) as Ek.
+    destruct S as [[Ho ->]|[Hn ->]].
+    + split.
+      * intros H; inversion H; subst. split; [reflexivity|].
+        destruct Ho as [Ho|[Ho _]]; lia.
+      * intros [H _]. exact H.
+    + split; [discriminate|]. intros [H Hc]. inversion H; subst. exfalso. apply Hn.
+      destruct (Nat.eq_dec (length s - n) (length r0)) as [Eq|Ne]; [right; auto|left; lia].
+  - split; [|intros [H _]; discriminate].
+    destruct S as [->|[-> _]]; discriminate.
+  - exfalso. eapply (g_fuel _ _ G); [apply le_n|exact E0].
+Qed.
+
+(* position of the (n+1)-th token *)
+Lemma pos_of_floor ts n : n <= length ts ->
+  pos_of ts (length ts - n) = match skipn n ts with t :: _ => tstart t | [] => O end.
+Proof. intros H. unfold pos_of. replace (length ts - (length ts - n)) with n by lia. reflexivity. Qed.
+
+Theorem parse_entry_limit_exceeded e o n ts d c :
+  parse_entry e (with_max o None) ts = Ok (d, c) -> n < c ->
+  parse_entry e (with_max o (Some n)) ts = SyntaxErr (pos_of ts (length ts - n)).
+Proof.
+  unfold parse_entry. cbn [with_max max_tokens floor_of exp_fragment_arguments
+                             exp_directives_on_directive_definitions].
+  pose proof (parse_entry_sim e o n ts) as S. cbv zeta in S.
+  set (s := map sig ts) in *. set (xfa := exp_fragment_arguments o) in *.
+  set (xdd := exp_directives_on_directive_definitions o) in *.
+  assert (Ls : length s = length ts) by (unfold s; apply map_length).
+  unfold simc in S.
+  destruct (core e 0 xfa xdd (sof_tok :: s)) as [d0 r0|e0|] eqn:E0; try discriminate.
+  intros H Hc. inversion H; subst. clear H.
+  destruct S as [[Ho _]|[_ ->]].
+  - exfalso. destruct Ho as [Ho|[Ho _]]; lia.
+  - rewrite Ls. reflexivity.
+Qed.
+
+Theorem parse_entry_limit_error e o n ts p :
+  parse_entry e (with_max o None) ts = SyntaxErr p ->
+  parse_entry e (with_max o (Some n)) ts = SyntaxErr p \/
+  parse_entry e (with_max o (Some n)) ts = SyntaxErr (pos_of ts (length ts - n)).
+Proof.
+  unfold parse_entry. cbn [with_max max_tokens floor_of exp_fragment_arguments
+                             exp_directives_on_directive_definitions].
+  pose proof (parse_entry_sim e o n ts) as S. cbv zeta in S.
+  set (s := map sig ts) in *. set (xfa := exp_fragment_arguments o) in *.
+  set (xdd := exp_directives_on_directive_definitions o) in *.
+  assert (Ls : length s = length ts) by (unfold s; apply map_length).
+  unfold simc in S.
+  destruct (core e 0 xfa xdd (sof_tok :: s)) as [d0 r0|e0|] eqn:E0; try discriminate.
+  intros H. destruct S as [->|[-> _]]; [left; exact H|right; rewrite Ls; reflexivity].
+Qed.
+
+(* (d) only (kind, value) of the tokens matter *)
+Theorem parse_entry_layout e o ts1 ts2 :
+  map sig ts1 = map sig ts2 ->
+  (forall d c, parse_entry e o ts1 = Ok (d, c) <-> parse_entry e o ts2 = Ok (d, c)) /\
+  ((exists p, parse_entry e o ts1 = SyntaxErr p) <-> (exists p, parse_entry e o ts2 = SyntaxErr p)).
+Proof.
+  intros E. unfold parse_entry. rewrite E.
+  destruct (core e _ _ _ _) as [d r|x|]; split; try tauto; split; intros [p H]; try discriminate; eauto.
+Qed.
+
+(* the index of the blamed token is layout independent as well *)
+Definition error_index (e : entry) (o : options) (ts : list token) : option nat :=
+  let s := map sig ts in
+  match core e (floor_of o (length s)) (exp_fragment_arguments o)
+             (exp_directives_on_directive_definitions o) (sof_tok :: s) with
+  | RErr x => Some (length s - x)
+  | _ => None
+  end.
+
+Theorem error_index_layout e o ts1 ts2 :
+  map sig ts1 = map sig ts2 -> error_index e o ts1 = error_index e o ts2.
+Proof. intros E. unfold error_index. rewrite E. reflexivity. Qed.
+
+Theorem error_index_spec e o ts p :
+  parse_entry e o ts = SyntaxErr p ->
+  exists i, error_index e o ts = Some i /\
+            p = match skipn i ts with t :: _ => tstart t | [] => O end.
+Proof.
+  unfold parse_entry, error_index.
+  destruct (core e _ _ _ _) as [d r|x|]; try discriminate.
+  intros H; inversion H; subst. eexists; split; [reflexivity|].
+  unfold pos_of. rewrite map_length. reflexivity.
+Qed.
+
+(* ================= source text ================= *)
+Lemma lazy_loop_read fuel : forall cu s,
+  length s < fuel ->
+  match snd (lazy_loop read_token fuel cu s) with LCrash _ => False | LFuel => False | _ => True end.
+Proof.
+  induction fuel as [|f IH]; intros cu s Hf; [lia|].
+  cbn [lazy_loop]. pose proof (LexerProps.read_token_spec cu s) as Ht.
+  destruct (read_token cu s) as [[[tk cu'] s']| | |]; try exact Ht; try exact I.
+  destruct Ht as (g & n & Hg & Hst & Hen & Ha & Hc & Hpk & Heof & Hne).
+  destruct (tkind tk =? K_EOF)%N eqn:Ek; [exact I|].
+  specialize (Hne eq_refl). pose proof (LexerProps.adv_length _ _ _ Ha) as HL.
+  specialize (IH cu' s' ltac:(lia)).
+  destruct (lazy_loop read_token f cu' s') as [ts e]. exact IH.
+Qed.
+
+Lemma lazy_loop_coord fuel : forall cu s,
+  length s < fuel ->
+  match snd (lazy_loop coord_token fuel cu s) with LCrash _ => False | LFuel => False | _ => True end.
+Proof.
+  induction fuel as [|f IH]; intros cu s Hf; [lia|].
+  cbn [lazy_loop]. pose proof (LexerProps.coord_token_spec cu s) as Ht.
+  destruct (coord_token cu s) as [[[tk cu'] s']| | |]; try exact Ht; try exact I.
+  destruct (tkind tk =? K_EOF)%N eqn:Ek; [exact I|].
+  destruct Ht as [Ht|Ht]; [congruence|].
+  specialize (IH cu' s' ltac:(lia)).
+  destruct (lazy_loop coord_token f cu' s') as [ts e]. exact IH.
+Qed.
+
+Theorem token_stream_total coord s : exists ts, token_stream coord s = Ok ts.
+Proof.
+  unfold token_stream. destruct coord.
+  - pose proof (lazy_loop_coord (S (length s)) init_cursor s ltac:(lia)) as H.
+    destruct (lazy_loop coord_token (S (length s)) init_cursor s) as [ts e]. cbn in H.
+    destruct e; try contradiction; eauto.
+  - pose proof (lazy_loop_read (S (length s)) init_cursor s ltac:(lia)) as H.
+    destruct (lazy_loop read_token (S (length s)) init_cursor s) as [ts e]. cbn in H.
+    destruct e; try contradiction; eauto.
+Qed.
+
+Theorem parse_text_total e o s :
+  (exists d c, parse_text e o s = Ok (d, c)) \/ (exists p, parse_text e o s = SyntaxErr p).
+Proof.
+  unfold parse_text.
+  destruct (token_stream_total (match e with ECoordinate => true | _ => false end) s) as [ts ->].
+  cbn [obind]. apply parse_entry_total.
 Qed.
